@@ -562,6 +562,9 @@ Fixpoint xcheck_from (n : nat) (w : @wst state) (wk : @wst kstate) (m_ok k_ok : 
       let bad2 := k_ok && negb (xobs_eqb r' rk) in
       (if bad1 then [(n, 1%N)] else []) ++
       (if bad2 then [(n, xtag rk r')] else []) ++
+      (* checked on the observation alone, whatever happened before: nobody is
+         handed a connection that is already shut down *)
+      (if handed_closed (x_o r') && negb bad2 then [(n, 4%N)] else []) ++
       xcheck_from (S n) w' wk' (m_ok && negb bad1) (k_ok && negb bad2) c'
   end.
 
